@@ -9,7 +9,7 @@ ASSUMPTIONS = base.ASSUMPTIONS + ['operand formats have a non-negative integer l
                                   'for the repr method of `/` only the relational statement is checked (the float quotient may round either way)']
 RULE = ('DV lines (truediv/floordiv/mod, optimal sizing, raw/repr, operator/function/numpy routes): every pair of codes with non-zero divisor for all format pairs with n_word<=3 (quick) / <=5 (thorough), '
         '0<=n_frac<=n_word-sign, under trunc/floor/around; random pairs with result word <=53. non-trivial = the exact quotient is not representable (truediv) or the operands have different formats / negative codes (//, %)')
-TECHNIQUE = 'Lean 4 theorems (floor bounds and exactness of the pre-scaled integer quotient, optimal format never overflows, // = floor, % = x - y*floor(x/y) with divisor sign, divmod identity, raw = repr) + relational checker on the implementation'
+TECHNIQUE = 'Lean 4 theorems (floor bounds and exactness of the pre-scaled integer quotient, optimal format never overflows, // = floor, % = x - y*floor(x/y) with divisor sign, divmod identity, raw = repr) + relational checker on the implementation + source tie: the growth/sizing/carrier rules of fxpmath/functions.py are translated to Lean on every run (harness/srcgen.py) and the tie theorems of lean/FxpVerif/Gen/Tie.lean re-checked against the translation'
 LEVEL_TEXT = ('Machine-checked for all format pairs and non-zero divisors: the raw quotient code is floor(exact scaled quotient) hence exact when representable and otherwise a neighbour with error < 1 LSB, fits the optimal format; '
               'x//y and x%y equal floor(x/y) and x-y*floor(x/y) exactly, (x//y)*y + x%y = x, raw and repr agree. The implementation is judged on exhaustive small format pairs by the verified relational checker.')
 LEVEL_NOTE = 'Trusted: Lean kernel + standard axioms; model-vs-code agreement on generated inputs only.'
